@@ -946,10 +946,19 @@ func ruleC20_6(c *Ctx) {
 		// a list filled element by element (append or indexed store): every element is such a read
 		srcs := appendedSources(resolve(a[5], call))
 		okInter = len(srcs) > 0
+		// inside a helper the file names are a parameter: read it as the argument the helper was called with
+		want := map[string]bool{c.fv("intermediate-certs", "verifyCmd") + "[*]": true}
+		if hc, _ := producer(resolve(a[5], call), call); hc != nil {
+			for j, ha := range hc.Common().Args {
+				if org(ha) == c.fv("intermediate-certs", "verifyCmd") {
+					want[fmt.Sprintf("p%d[*]", j)] = true
+				}
+			}
+		}
 		for _, sv := range srcs {
 			if !derives(sv, func(v ssa.Value) bool {
 				k, ok := v.(*ssa.Call)
-				return ok && calleeName(k) == "os.ReadFile" && org(k.Call.Args[0]) == c.fv("intermediate-certs", "verifyCmd")+"[*]"
+				return ok && calleeName(k) == "os.ReadFile" && want[org(k.Call.Args[0])]
 			}, true) {
 				okInter = false
 			}
